@@ -50,6 +50,9 @@ def traceBalanced (trace : String) : Bool :=
   final.isEmpty
 
 def c15 (op : String) (args : List String) (impl : String) : Verdict :=
+  -- `walkfs` is the same walk through the real file system and FileSystemOpener, with the `$INCLUDE`
+  -- arguments re-spelled in equivalent ways by the harness: the expected outcome is that of the plain spelling
+  let op := if op == "walkfs" then "walk" else op
   match op, args with
   | "walk", [fsS, rootS, ign] =>
     match parseFS fsS, unhex rootS with
